@@ -6,7 +6,8 @@ EXTENDS Naturals, Sequences, FiniteSets, TLC, Json, CSV
 CONSTANT MaxOps
 
 OpNames == <<"find_mux", "find_legacy", "vreq_params", "vreq_params_delete", "vreq_body_pattern", "vreq_body_unique", "vreq_body_defaults",
-             "vresp", "visitjson", "gen_newtype", "gen_sametype", "vreq_body_pattern_customregex", "vreq_secure_body", "internal_validate_doc">>
+             "vresp", "visitjson", "gen_newtype", "gen_sametype", "vreq_body_pattern_customregex", "vreq_secure_body", "vreq_multipart_addprops", "vreq_json_addprops",
+             "vreq_form_sharedopts", "vreq_json_defaults_sharedopts", "internal_validate_doc">>
 N == Len(OpNames)
 
 VARIABLE ms      \* non-decreasing sequence of indices into OpNames = a multiset
